@@ -369,7 +369,10 @@ impl Runner {
         });
         let txt = serde_json::to_string_pretty(&body).unwrap();
         let h = fnv64(txt.as_bytes());
-        let dir = format!("{VERIF_ROOT}/replays");
+        let dir = match std::env::var("VERIF_OUT_DIR") {
+            Ok(d) => format!("{d}/replays"),
+            Err(_) => format!("{VERIF_ROOT}/replays"),
+        };
         let _ = std::fs::create_dir_all(&dir);
         let path = format!("{dir}/{}-{}-{:016x}.json", self.property, sub, h);
         std::fs::write(&path, txt).expect("write replay file");
@@ -792,7 +795,10 @@ impl Runner {
             "violations": self.violations.len(),
             "inconclusive": self.inconclusive,
         });
-        let dir = format!("{VERIF_ROOT}/evidence");
+        let dir = match std::env::var("VERIF_OUT_DIR") {
+            Ok(d) => format!("{d}/evidence"),
+            Err(_) => format!("{VERIF_ROOT}/evidence"),
+        };
         let _ = std::fs::create_dir_all(&dir);
         let path = std::env::var("VERIF_EVIDENCE_FILE").unwrap_or(format!("{dir}/{}.json", self.property));
         std::fs::write(&path, serde_json::to_string_pretty(&ev).unwrap()).expect("write evidence");
